@@ -75,3 +75,18 @@ package meta
 //@ func (*DB).delete
 //@   property C02
 //@   ensures [reports_the_diff_of_the_metadata_removal] err == nil ==> res0.GC == metaDiffGC() && res0.Phy == metaDiffPhy() && res0.Payload == metaDiffPayload()
+
+// A stored counter is updated exactly, except that a decrease saturates at zero (it never
+// wraps below zero); the value written under the kind's key is old+delta resp. max(0, old+delta).
+//@ callrule c02_counter_written_is_the_saturated_sum in updateCounter
+//@   property C02
+//@   callee (*bbolt.Bucket).Put
+//@   pureeffect
+//@   requires [saturating_exact_update] wide(ite(len(data) == 8, leval(data, 0, 8), 0)) + wide(delta) < 18446744073709551616 ==> leval(a1, 0, 8) == max(0, wide(ite(len(data) == 8, leval(data, 0, 8), 0)) + wide(delta))
+//@ callrule c02_counter_collaborators in updateCounter
+//@   property C02
+//@   callee (*bbolt.Bucket).Get
+//@   pureeffect
+//@ func updateCounter
+//@   property C02
+//@   opt wide=80
